@@ -820,3 +820,66 @@ val tbs_of_tables : tables -> val0 option list
 val tables_of_tbs : val0 option list -> tables
 
 val blk_of_rb : rblock -> blk
+
+type path =
+| Part of n
+| Final of n
+| Fd of n
+
+type event =
+| EOpen of path
+| EWrite of path * n list
+| EClose of path
+| ERename of n
+
+type wop =
+| WWrite of n list
+| WRotate of n
+
+val named_step : n -> wop -> n * event list
+
+val named_destroy : n -> event list
+
+val fd_step : n -> wop -> n * event list
+
+val fd_destroy : n -> event list
+
+val run_steps :
+  (n -> wop -> n * event list) -> (n -> event list) -> n -> wop list -> bool
+  -> event list
+
+val named_trace : n -> wop list -> bool -> event list
+
+val fd_trace : n -> wop list -> bool -> event list
+
+val outputs_of : n -> n list -> wop list -> bool -> (n * n list) list
+
+val czip :
+  'a1 -> ('a1 -> n list -> 'a1 * n list) -> ('a1 -> n list) -> 'a1 -> wop
+  list -> bool -> wop list
+
+type wcall =
+| CWrite of n list
+| CRotate of n
+
+type outcome =
+| Done
+| Threw
+
+type fout = { stored0 : n list; intended : n list; room : n }
+
+val fout_new : n -> fout
+
+val fd_write : fout -> n list -> fout * outcome
+
+type nout = { n_out : fout; n_bad : bool }
+
+val named_write : nout -> n list -> nout * outcome
+
+val fd_calls : fout -> wcall list -> (fout list * fout) * outcome list
+
+val named_calls : nout -> wcall list -> (fout list * fout) * outcome list
+
+val lost : fout -> bool
+
+val enc_rotate_fd : fout -> n list -> n -> (fout * n list) * outcome
